@@ -1,5 +1,6 @@
 (* Properties/C13.v — An existing object version never changes under the caller (M-META). *)
 From Verif Require Import Bytes Codec Md5 Meta MetaBasics MetaWitness.
+From Verif Require Import MetaRows1 MetaRows2 MetaRows3 MetaRows4 MetaRows5 MetaRows6 MetaRows7 MetaRows8 MetaRows9.
 
 (* FULL STATEMENT, Last-Modified half: two reads of one non-null version id report the same Last-Modified.
    FALSE of the faithful model and of the code (corpus/C13/last-modified-bumped.txt, known finding
@@ -29,3 +30,64 @@ Theorem C13_reads_pure : forall i hist s o,
   fst (step i hist s o) = with_ids s i.
 Proof. exact reads_pure. Qed.
 Print Assumptions C13_reads_pure.
+
+(* ================= row-level theorems (Proofs/MetaRows1..9) ================= *)
+
+(* CONTENT half, partial: from ANY state satisfying the row invariant, an existing non-null version keeps its
+   row id, ETag, size, content type and the same part rows across every operation, EXCEPT the explicit,
+   decidable region: delete of that very version id; append on the key in a non-Enabled bucket while the
+   version is current (the refuted region of C13_append_in_place_refuted); key-only delete in an Unset bucket
+   while the version is current. *)
+Theorem C13_content_partial : forall i hist s o b k n r,
+  (NoDup (map o_id (objs s)) /\ (forall x, In x (objs s) -> (o_id x < next_id s)%N)) /\
+  (unique_ok s = true /\ parts_unique_ok s = true) ->
+  find_version s b k (VId n) = Some r ->
+  match o with
+  | ODel b' k' v _ =>
+      bytes_eqb b' b && bytes_eqb k' k &&
+      match resolve_vref v with
+      | Some v' => vid_eqb v' (VId n)
+      | None => o_latest r && match option_map b_ver (find_bucket s b) with Some VUnset => true | _ => false end
+      end
+  | OApp b' k' _ _ =>
+      bytes_eqb b' b && bytes_eqb k' k && o_latest r &&
+      match option_map b_ver (find_bucket s b) with Some VEnabled | None => false | Some _ => true end
+  | _ => false
+  end = false ->
+  exists r', find_version (fst (step i hist s o)) b k (VId n) = Some r' /\
+    o_id r' = o_id r /\ o_etag r' = o_etag r /\ o_size r' = o_size r /\ o_dm r' = o_dm r /\
+    o_ctype r' = o_ctype r /\ o_created r' = o_created r /\
+    obj_parts (fst (step i hist s o)) (o_id r') = obj_parts s (o_id r).
+Proof. exact step_version_persists_out. Qed.
+Print Assumptions C13_content_partial.
+
+(* LAST-MODIFIED half, partial: for every history, a HEAD (by version id or by key) that succeeded returns the
+   SAME answer — version id, ETag, size, Last-Modified, content type — after any continuation in which no
+   operation is addressed to that (bucket,key): other keys and buckets, reads, bucket operations.  (Writes
+   to the same key are the refuted region of C13_last_modified_refuted.) *)
+Theorem C13_last_modified_partial : forall ops mid b k v,
+  Forall (fun o => match o with
+    | OPut b' k' _ _ | ODel b' k' _ _ | OCmu b' k' | OUp b' k' _ _ _ | OCpl b' k' _ _ _ | OAbt b' k' _
+    | OApp b' k' _ _ => ~ (b' = b /\ k' = k)
+    | OCp _ _ _ db dk => ~ (db = b /\ dk = k)
+    | _ => True
+    end) mid ->
+  forall v' e sz lm ct bd,
+  op_head (fst (run ops)) b k v = RObj v' e sz lm ct bd ->
+  op_head (fst (run (ops ++ mid))) b k v = RObj v' e sz lm ct bd.
+Proof. exact run_heads_stable_out. Qed.
+Print Assumptions C13_last_modified_partial.
+
+Example C13_ex_last_modified_hyps : exists lm,
+  op_head (fst (run [OMb wb; OVer wb VEnabled; OPut wb wk cA CRNone])) wb wk (Some (VId 2)) =
+    RObj (VId 2) (mk_md5 cA) 8 lm None None /\
+  Forall (fun o => match o with
+    | OPut b' k' _ _ | ODel b' k' _ _ | OCmu b' k' | OUp b' k' _ _ _ | OCpl b' k' _ _ _ | OAbt b' k' _
+    | OApp b' k' _ _ => ~ (b' = wb /\ k' = wk)
+    | OCp _ _ _ db dk => ~ (db = wb /\ dk = wk)
+    | _ => True
+    end) [OPut wb B"k2" cB CRNone; OVer wb VSuspended; OCp wb wk VRNone wb B"k3"; ORb wb; OLsv wb].
+Proof.
+  eexists. split; [vm_compute; reflexivity|].
+  repeat constructor; cbn; intros [_ E]; discriminate E.
+Qed.
